@@ -10,6 +10,62 @@ deriving instance DecidableEq for Retrieve.BlobClass
 namespace Retrieve
 open Wire Chain
 
+/-! ## the two validation predicates, spelled out -/
+
+/-- `SignedHeader.ValidateBasic` (after /repo e753a34): proposer address and signature present, the signer claims
+the proposer address, carries a key, **its address is the address of that key**, and the signature verifies
+under that key -/
+theorem validateBasicWire_iff (o : Oracle) (sh : SignedHeader) :
+    validateBasicWire o sh = true ↔
+      sh.header.proposerAddress ≠ [] ∧ sh.signature ≠ [] ∧ sh.header.proposerAddress = sh.signer.address ∧
+      sh.signer.pubKey ≠ [] ∧ sh.signer.address = keyAddrOf o sh.signer.pubKey ∧ o.hdrSigOk = true := by
+  simp [validateBasicWire, and_assoc]
+
+/-- `isValidSignedData` (after /repo e753a34) -/
+theorem validSignedData_iff (o : Oracle) (p : Bytes) (sd : SignedData) :
+    validSignedData o p sd = true ↔
+      sd.signer.address = p ∧ sd.signer.pubKey ≠ [] ∧ sd.signer.address = keyAddrOf o sd.signer.pubKey ∧
+      o.dataSigOk = true := by
+  simp [validSignedData, and_assoc]
+
+/-! ## the address of the carried key -/
+
+theorem ed25519Raw_length {pk R : Bytes} (h : ed25519Raw pk = some R) : R.length = 32 := by
+  unfold ed25519Raw at h
+  split at h
+  · simp at h
+  · split at h
+    · split at h
+      · rename_i hc
+        have : _ = R := Option.some.inj h
+        rw [← this]; exact hc.2
+      · simp at h
+    · simp at h
+
+theorem keyAddrOf_ed25519 (o : Oracle) {pk R : Bytes} (h : ed25519Raw pk = some R) :
+    keyAddrOf o pk = sha256 R := by
+  simp [keyAddrOf, h]
+
+theorem keyAddrOf_other (o : Oracle) {pk : Bytes} (h : ed25519Raw pk = none) : keyAddrOf o pk = o.keyAddr := by
+  simp [keyAddrOf, h]
+
+/-- what libp2p's own `MarshalPublicKey` writes for an Ed25519 key is read back as that key -/
+theorem ed25519Raw_canonical (R : Bytes) (h : R.length = 32) : ed25519Raw ([8, 1, 18, 32] ++ R) = some R := by
+  have e : ([8, 1, 18, 32] ++ R : Bytes) = encFields [(1, .varint 1), (2, .len R)] := by
+    simp [encFields, encField, encVarint, encVarintF, h]
+  have hw : ∀ f ∈ [((1 : Nat), WVal.varint 1), (2, WVal.len R)], WF f := by
+    intro f hf
+    simp only [List.mem_cons, List.not_mem_nil, or_false] at hf
+    rcases hf with hf | hf <;> subst hf <;> simp [WF, WVal.WF, maxFieldNum, h]
+  unfold ed25519Raw
+  rw [e, decFields_encFields _ hw]
+  have h1 : ([((1 : Nat), WVal.varint 1), (2, WVal.len R)].filterMap (pickVarint 1)) = [1] := by
+    simp [List.filterMap_cons, pickVarint]
+  have h2 : ([((1 : Nat), WVal.varint 1), (2, WVal.len R)].filterMap (pickLen 2)) = [R] := by
+    simp [List.filterMap_cons, pickLen]
+  simp only [h1, h2, List.getLast?_singleton]
+  simp [h]
+
 /-! ## signed data -/
 
 theorem classifyData_cases (o : Oracle) (p bs : Bytes) :
@@ -226,17 +282,14 @@ theorem classify_encode_header (o : Oracle) (p : Bytes) (sh : SignedHeader) (hw 
     (hok : o.keyOk = true) (hv : validateBasicWire o sh = true) (hp : sh.header.proposerAddress = p) :
     classify o p sh.encode = .hdrAccepted sh := by
   rw [classify_hdrAccepted_iff]
-  refine ⟨headerStage_encode o sh hw ?_ hok, hv, hp⟩
-  simp [validateBasicWire] at hv
-  exact hv.1.2
+  exact ⟨headerStage_encode o sh hw ((validateBasicWire_iff o sh).1 hv).2.2.2.1 hok, hv, hp⟩
 
 theorem classifyData_encode (o : Oracle) (p : Bytes) (sd : SignedData) (hw : sd.WF)
     (hok : o.keyOk = true) (ht : sd.data.txs ≠ []) (hm : sd.data.metadata.isSome = true)
     (hv : validSignedData o p sd = true) :
     classifyData o p sd.encode = .dataAccepted sd := by
   rw [classifyData_accepted_iff]
-  have hk : sd.signer.pubKey ≠ [] := by
-    simp [validSignedData] at hv; exact hv.1.2
+  have hk : sd.signer.pubKey ≠ [] := ((validSignedData_iff o p sd).1 hv).2.1
   refine ⟨?_, ht, hm, hv⟩
   rw [SignedData.decode_encode _ hw (fun _ => hok)]
   simp [SignedData.canon', Signer.canon, hk]
